@@ -457,6 +457,24 @@ func (ex *Exec) runGhost(s *State, site, when string, results []Val) {
 			}
 			s.Lets[g.Name] = env.eval(g.RHS)
 			continue
+		case "check":
+			// like assert, but the execution does not continue under the
+			// assumption that it holds (used for clauses that are recorded
+			// findings: what follows must not be proved for the good states only),
+			// and it belongs to the properties it is tagged with only
+			if ex.mentionsUnboundSiteLet(s, g.Clause.Expr) {
+				continue
+			}
+			label := g.Clause.Label
+			if label == "" {
+				label = "c"
+			}
+			if !ex.dry {
+				sc := s.clone()
+				ex.oblige(sc, fmt.Sprintf("%s#check.%s.%s", ex.key, g.Site, label), "check", ex.fn.Pos(), g.Clause.Tags,
+					ex.evalBool(ex.rootEnv(sc, results), g.Clause.Expr), g.Clause.Src)
+			}
+			continue
 		case "assert":
 			if ex.mentionsUnboundSiteLet(s, g.Clause.Expr) {
 				// about a value this path has not created (guard such clauses
